@@ -7,6 +7,7 @@ Symbolic: the source magnitude m (int / float / Decimal kinds).  One run of the 
 
 from __future__ import annotations
 
+import time
 from fractions import Fraction
 from typing import Any, Dict, List, Tuple
 
@@ -41,7 +42,8 @@ sys.exit(0)
 
 
 def check_pair(acc: work.Acc, src: Any, dst: Any, kind: str, ratios: List[Tuple[Fraction, Any]],
-               tol: float, label: str, src_code: str, dst_code: str, prelude: str = "") -> str:
+               tol: float, label: str, src_code: str, dst_code: str, prelude: str = "",
+               collect: bool = False) -> str:
     cv = convterm.convert(src, dst, kind)
     acc.out["paths"] += cv.paths
     acc.out["queries"] += cv.queries
@@ -56,6 +58,9 @@ def check_pair(acc: work.Acc, src: Any, dst: Any, kind: str, ratios: List[Tuple[
             raise symnum.HarnessError(f"{label}: {cv.outcome}: {cv.msg}")
         acc.count(f"raised_{cv.outcome}(C07 matter)")
         return "raised"
+    if kind == "float" and cv.d == 0 and cv.c and not prelude and collect:
+        acc.out.setdefault("coeffs", []).append((str(src.dimension), families.show(src), families.show(dst),
+                                                 src_code, dst_code, cv.c.numerator, cv.c.denominator, tol))
     if not ratios:
         acc.count("no_oracle_size")
         return "no-oracle"
@@ -84,6 +89,103 @@ def check_pair(acc: work.Acc, src: Any, dst: Any, kind: str, ratios: List[Tuple[
                             f"declarations give m*{float(ratios[0][0])!r}",
                             replay(src_code, dst_code, kind, ratios[0][0], max(tol, 1e-9), prelude)))
     return "viol"
+
+
+SIZES_REPLAY = """
+import math
+PAIRS = {pairs!r}      # (source, target, tolerance) of the conversions that admit no consistent sizes
+ns = dict(measured=measured)
+k = {{}}
+for sc, dc, tol in PAIRS:
+    a, b = eval(sc, ns), eval(dc, ns)
+    k[(sc, dc)] = ((1.0 * a).in_unit(b).magnitude, tol)
+    print('1', a, '=', k[(sc, dc)][0], b)
+# sizes s with (1-tol) k_ab <= s_a / s_b <= (1+tol) k_ab exist iff the difference constraints on log s have
+# no negative cycle (Floyd-Warshall over the units involved)
+nodes = sorted({{x for p in k for x in p}})
+INF = float('inf')
+d = {{(x, y): (0.0 if x == y else INF) for x in nodes for y in nodes}}
+for (a, b), (kab, tol) in k.items():
+    d[(a, b)] = min(d[(a, b)], math.log(kab * (1 + tol)))       # log s_a - log s_b <= log(k (1+tol))
+    d[(b, a)] = min(d[(b, a)], -math.log(kab * (1 - tol)))      # log s_b - log s_a <= -log(k (1-tol))
+for m in nodes:
+    for x in nodes:
+        for y in nodes:
+            if d[(x, m)] + d[(m, y)] < d[(x, y)]:
+                d[(x, y)] = d[(x, m)] + d[(m, y)]
+worst = min(d[(x, x)] for x in nodes)
+print('most negative cycle:', worst)
+if worst < -1e-9:
+    print('REPRODUCED: no consistent set of unit sizes explains these conversions'); sys.exit(1)
+sys.exit(0)
+"""
+
+
+def sizes_feasibility(rep: report.Report, coeffs: List[Tuple]) -> None:
+    """The statement of C04 itself, on the shipped named units: per dimension, do sizes s_u > 0 exist
+    with every conversion factor the library applies within tolerance of s_a / s_b?  The factors
+    k_ab come from the symbolic runs of the real convert (result = k_ab * m for every m); existence
+    of the sizes is one linear-arithmetic query per dimension; an unsatisfiable core names the
+    conversions that cannot be reconciled."""
+    groups: Dict[str, List[Tuple]] = {}
+    for c in coeffs:
+        groups.setdefault(c[0], []).append(c)
+    for dim, cs in sorted(groups.items()):
+        units = sorted({c[1] for c in cs} | {c[2] for c in cs})
+        if len(units) < 3:
+            rep.ob("unsat", f"sizes exist for the {len(units)} named unit(s) of {dim} (fewer than three: nothing to reconcile)",
+                   ("sizes", dim))
+            continue
+        sv = {u: z3.Real(f"size_{i}") for i, u in enumerate(units)}
+        live = sorted(cs)
+
+        def solve(constraints: List[Tuple]) -> Tuple[str, Any, Dict[str, Tuple]]:
+            S = z3.Solver()
+            S.set("timeout", 60000)
+            S.set("core.minimize", True)
+            S.add(*[v > 0 for v in sv.values()])
+            labels: Dict[str, Tuple] = {}
+            for j, c in enumerate(constraints):
+                (_, a, b, sc, dc, num, den, tol) = c
+                k = symnum.q(Fraction(num, den))
+                t = symnum.q(Fraction(tol))
+                lab = z3.Bool(f"pair_{j}")
+                labels[str(lab)] = c
+                S.assert_and_track(z3.And(sv[a] >= k * (1 - t) * sv[b], sv[a] <= k * (1 + t) * sv[b]), lab)
+            t0 = time.time()
+            r = str(S.check())
+            rep.merge_stats(queries=1, solver_s=time.time() - t0)
+            return r, S, labels
+
+        for round_ in range(6):
+            r, S, labels = solve(live)
+            name = f"sizes exist for the {len(units)} named units of {dim} ({len(live)} conversion factors)"
+            if r == "sat":
+                rep.ob("unsat", name, ("sizes", dim, round_))
+                break
+            if r != "unsat":
+                rep.ob("unknown", name, ("sizes", dim, round_))
+                break
+            core = [labels[str(x)] for x in S.unsat_core()]
+            rep.ob("sat", name, ("sizes", dim, round_))
+            involved = sorted({c[1] for c in core} | {c[2] for c in core})
+            # which unit is it about?  Those whose removal alone leaves sizes for all the others (this
+            # names the finding independently of which core the solver happened to return)
+            culprits = [u for u in units
+                        if solve([c for c in live if u not in (c[1], c[2])])[0] == "sat"]
+            if culprits:
+                # further rounds look for what remains once these units are set aside
+                sig = f"C04:sizes:{dim}:" + "|".join(culprits)
+            else:
+                sig = f"C04:sizes:{dim}:" + ",".join(involved)
+            rep.violation(sig,
+                          f"no sizes of {involved} reconcile the factors the library applies: " +
+                          "; ".join(f"1 {c[1]} = {c[5] / c[6]!r} {c[2]}" for c in core[:6]),
+                          families.REPLAY_IMPORTS + SIZES_REPLAY.format(pairs=[(c[3], c[4], c[7]) for c in core]))
+            if culprits:
+                live = [c for c in live if not (set(culprits) & {c[1], c[2]})]
+            else:
+                live = [c for c in live if c not in core]
 
 
 def worker(task: Tuple) -> Dict[str, Any]:
@@ -123,7 +225,7 @@ def worker(task: Tuple) -> Dict[str, Any]:
             tol = 1e-5 * orc.degree(src, dst)
             label = f"{families.show(src)}->{families.show(dst)}"
             st = check_pair(acc, src, dst, kind, ratios, tol, label, families.code(src),
-                            families.code(dst))
+                            families.code(dst), collect=(mode == "named"))
             acc.count(f"{mode}_{st}")
             if i == 0:
                 acc.sample({"family": mode, "pair": label,
@@ -159,6 +261,7 @@ def main(tier: str, selftest_cases: int = 0) -> int:
                        [("synthetic", ch) for ch in par.chunks(cc.SYNTHETIC_PAIRS, 4)],
                        maxtasksperchild=1)
     work.merge(rep, results)
+    sizes_feasibility(rep, [c for r in results for c in r.get("coeffs", [])])
     rep.functions.update(cc.FUNCTIONS)
     n_named = sum(len(t[1]) for t in tasks if t[0] == "named")
     n_comp = sum(len(t[1]) for t in tasks if t[0] == "compound")
